@@ -183,6 +183,10 @@ func (b *binding) emitSetP() {
 		if b.isStrict || b.scope.c.scope.strict {
 			b.emitGetP()
 			b.scope.c.emit(throwAssignToConst)
+		} else {
+			// sloppy assignment to the name of a function expression: silently ignored, but the value
+			// must still be removed from the stack (emitSetP is the popping variant)
+			b.scope.c.emit(pop)
 		}
 		return
 	}
